@@ -31,7 +31,7 @@
    exitCodeOnce.Do" went away when the observer made "project exit code fixed" observable; (a) "every EBegin
    is preceded by its ESpawn" went away when the model staged instance creation (Model.v `stage`): EBegin i
    is accepted only after do_spawn (waitGroup.Add) of i. *)
-From Coq Require Import List ZArith NArith Bool.
+From Coq Require Import List ZArith NArith Bool Lia.
 From PC.Base Require Import Assoc.
 From PC.Sup Require Import Model Monitors Check LemC04l RelC04 EnC04 EnC04p EnC04b EnC04q EnC04c EnC04d EnC04e.
 Import ListNotations.
@@ -320,19 +320,25 @@ Qed.
 
 (* (5) C04_progress_partial on the final state of w_evs: A is inside onProcessEnd, B waits for A to become healthy;
    the supervisor is quiet, Run()'s wait group is not, and some instance-side step is enabled *)
+Example w_conf_ranked : ranked w_conf (fun n => N.to_nat n).
+Proof.
+  intros n c d Hg Hin. unfold w_conf in Hg. unfold get in Hg.
+  destruct (N.eqb_spec 0 n) as [<-|_].
+  - injection Hg as <-. destruct Hin.
+  - destruct (N.eqb_spec 1 n) as [<-|_]; [|discriminate]. injection Hg as <-. cbn in Hin. destruct Hin as [<-|[]]. cbn. lia.
+Qed.
 Example C04_progress_partial_ex :
   exists s th e s', accept (init w_conf false) w_evs = Some s /\ quiet2 s /\ ~ wg_quiet s /\ step s (th, e) = Some s'.
 Proof.
   destruct (accept (init w_conf false) w_evs) as [s|] eqn:E; [|vm_compute in E; discriminate].
   pose proof E as E0. vm_compute in E0. injection E0 as E0.
   assert (Hq : quiet2 s) by (apply quiet2_b_spec; subst s; vm_compute; reflexivity).
+  assert (Hpc : option_map pc (get 2%N (insts s)) = Some (IBlocked 0%N CHealthy 1%N [])) by (subst s; vm_compute; reflexivity).
+  assert (Ht : get 3%N (thinst s) = Some 2%N) by (subst s; vm_compute; reflexivity).
   assert (Hn : ~ wg_quiet s).
-  { intros [_ Q2]. destruct (get 2%N (insts s)) as [x|] eqn:Hx; [|subst s; vm_compute in Hx; discriminate].
-    assert (Ht : get 3%N (thinst s) = Some 2%N) by (subst s; vm_compute; reflexivity).
-    destruct (Q2 _ _ _ Ht Hx) as ([Hp|Hp] & _); subst s; vm_compute in Hx; injection Hx as <-; discriminate Hp. }
-  assert (Hr : ranked w_conf (fun n => N.to_nat n)).
-  { intros n c d Hg Hin. unfold w_conf in Hg. cbn in Hg. destruct (N.eqb_spec 0 n) as [<-|_].
-    - injection Hg as <-. destruct Hin.
-    - destruct (N.eqb_spec 1 n) as [<-|_]; [|discriminate]. injection Hg as <-. cbn in Hin. destruct Hin as [<-|[]]. cbn. lia. }
-  destruct (C04_progress_partial _ _ _ _ _ Hr E Hq Hn) as (th & e & s' & Hs' & _). eauto 8.
+  { intros [_ Q2]. destruct (get 2%N (insts s)) as [x|] eqn:Hx; [|discriminate Hpc]. cbn in Hpc. injection Hpc as Hpc.
+    destruct (Q2 _ _ _ Ht Hx) as ([Hp|Hp] & _); congruence. }
+  clear E0 Hpc Ht.
+  destruct (C04_progress_partial _ _ _ _ _ w_conf_ranked E Hq Hn) as (th & e & s' & Hs' & _).
+  exists s, th, e, s'. split; [reflexivity|split; [exact Hq|split; [exact Hn|exact Hs']]].
 Qed.
